@@ -707,22 +707,8 @@ func (c *ewClient) write(ctx context.Context, o *networkv1beta1.PodENI, statusWr
 		return apierrors.NewBadRequest("name is required")
 	}
 	ver, _ := strconv.Atoi(o.ResourceVersion)
-	phase := ewPhaseTok(o.Status.Phase)
-	var line string
-	switch ev {
-	case "pStatus":
-		line = fmt.Sprintf("pe.pStatus %s %d %s", k, ver, phase)
-	case "pSetUid":
-		line = fmt.Sprintf("pe.pSetUid %s %d %d", k, ver, ewParseUID(o.Annotations[terwayTypes.PodUID]))
-	case "eStatusUnbind":
-		line = fmt.Sprintf("pe.eStatusUnbind %s %d", k, ver)
-	case "eStatusBind":
-		line = fmt.Sprintf("pe.eStatusBind %s %d %d", k, ver, ewParseInst(o.Status.InstanceID))
-	case "eFinalize":
-		line = fmt.Sprintf("pe.eFinalize %s %d", k, ver)
-	case "gReap":
-		line = fmt.Sprintf("pe.gReap %s %d", k, ver)
-	default:
+	line := w.writeLine(ev, k, ver, o)
+	if line == "" {
 		w.anomaly("record write classified as " + ev)
 		return errors.New("unexpected")
 	}
@@ -768,6 +754,9 @@ func (c *ewClient) write(ctx context.Context, o *networkv1beta1.PodENI, statusWr
 			w.monPhase(a, k, oldPhase, now.Status.Phase, now)
 			if ev == "eStatusBind" {
 				w.monBind(k, now)
+				if now.Spec.HaveFixedIP() {
+					w.obsV[k] = w.now // the controller looked the pod up to bind: an observation, whatever it writes
+				}
 			}
 		}
 	}
@@ -809,6 +798,17 @@ func (c *ewClient) patch(ctx context.Context, o *networkv1beta1.PodENI, p client
 	w.mu.Lock()
 	defer w.mu.Unlock()
 	k := o.Name
+	if a != nil && ev != "pPatchLabel" && ev != "gTouch" {
+		// a patch where the controllers use a versioned write: it is that write without its version check (the
+		// model, which expects the check, disagrees as soon as the version it carries is stale)
+		verbW := "update"
+		if statusWrite {
+			verbW = "status"
+		}
+		if _, evW, _ := w.classifyAs(ctx, verbW, "podeni"); evW != "" {
+			return c.patchAsWrite(ctx, a, evW, o, p, statusWrite, fault)
+		}
+	}
 	if a == nil || (ev != "pPatchLabel" && ev != "gTouch") {
 		w.anomaly("record patch by " + ev)
 		return errors.New("unexpected")
@@ -853,6 +853,73 @@ func (c *ewClient) patch(ctx context.Context, o *networkv1beta1.PodENI, p client
 	}
 	w.gClose(ev, k)
 	w.emit(k, fmt.Sprintf("pe.%s %s ok", ev, k), "")
+	return nil
+}
+
+// writeLine is the protocol line of a versioned record write ("" if ev is none).
+func (w *ewWorld) writeLine(ev, k string, ver int, o *networkv1beta1.PodENI) string {
+	switch ev {
+	case "pStatus":
+		return fmt.Sprintf("pe.pStatus %s %d %s", k, ver, ewPhaseTok(o.Status.Phase))
+	case "pSetUid":
+		return fmt.Sprintf("pe.pSetUid %s %d %d", k, ver, ewParseUID(o.Annotations[terwayTypes.PodUID]))
+	case "eStatusUnbind":
+		return fmt.Sprintf("pe.eStatusUnbind %s %d", k, ver)
+	case "eStatusBind":
+		return fmt.Sprintf("pe.eStatusBind %s %d %d", k, ver, ewParseInst(o.Status.InstanceID))
+	case "eFinalize":
+		return fmt.Sprintf("pe.eFinalize %s %d", k, ver)
+	case "gReap":
+		return fmt.Sprintf("pe.gReap %s %d", k, ver)
+	}
+	return ""
+}
+
+// patchAsWrite (w.mu held): see patch.
+func (c *ewClient) patchAsWrite(ctx context.Context, a *ewActor, ev string, o *networkv1beta1.PodENI, p client.Patch, statusWrite bool, fault bool) error {
+	w := c.w
+	k := o.Name
+	ver, _ := strconv.Atoi(o.ResourceVersion)
+	line := w.writeLine(ev, k, ver, o)
+	if line == "" {
+		w.anomaly("record patch classified as " + ev)
+		return errors.New("unexpected")
+	}
+	if fault {
+		a.sawErr = true
+		w.gClose(ev, k)
+		w.emit(k, line+" err", "")
+		return apierrors.NewInternalError(errors.New("injected"))
+	}
+	cur := w.rawRec(k)
+	if cur == nil {
+		w.gClose(ev, k)
+		w.emit(k, line+" stale", "")
+		return apierrors.NewNotFound(schema.GroupResource{Group: "network.alibabacloud.com", Resource: "podenis"}, k)
+	}
+	oldPhase := cur.Status.Phase
+	var err error
+	if statusWrite {
+		err = c.Client.Status().Patch(ctx, o, p)
+	} else {
+		err = c.Client.Patch(ctx, o, p)
+	}
+	if err != nil {
+		w.anomaly("raw patch: " + err.Error())
+		return err
+	}
+	w.ver[k] = w.nextVer[k]
+	w.nextVer[k]++
+	o.ResourceVersion = strconv.Itoa(w.ver[k])
+	if now := w.rawRec(k); now != nil && statusWrite {
+		w.noteLastSeen(a, k, now.Status.PodLastSeen)
+		w.monPhase(a, k, oldPhase, now.Status.Phase, now)
+		if ev == "eStatusBind" {
+			w.monBind(k, now)
+		}
+	}
+	w.gClose(ev, k)
+	w.emit(k, line+" ok", "")
 	return nil
 }
 
@@ -1278,6 +1345,11 @@ func (w *ewWorld) classify(ctx context.Context, verb, kind string) (*ewActor, st
 		}
 	}
 	return a, ev, child
+}
+
+// classifyAs is classify for a caller one frame deeper (used to ask "what would this call be as another verb").
+func (w *ewWorld) classifyAs(ctx context.Context, verb, kind string) (*ewActor, string, bool) {
+	return w.classify(ctx, verb, kind)
 }
 
 // gate parks a modelled call of an actor's main line until the scheduler releases it; calls of the
